@@ -345,6 +345,17 @@ func (p *pgBoundValue) GetData(setting config.ColumnEncryptionSetting) ([]byte, 
 
 	switch p.format {
 	case base.TextFormat:
+		if len(setting.GetMaskingPattern()) != 0 {
+			// masking is an operation over binary data too (see config.IsBinaryDataOperation and SetData):
+			// binary data in TextFormat received as Hex/Octal encoded values like for encryption
+			decoded, err := utils.DecodeEscaped(p.data)
+			if err == nil {
+				return decoded, nil
+			}
+			if err != utils.ErrDecodeOctalString {
+				return p.data, err
+			}
+		}
 		if setting.OnlyEncryption() || setting.IsSearchable() || setting.IsConsistentTokenization() {
 			// binary data in TextFormat received as Hex/Octal encoded values
 			// so we should decode them before processing
